@@ -18,7 +18,7 @@ LEVEL_NOTE = ("A-FP; determinism of locate_droplets / get_length_scale; A-PDE: e
 from pyvc.contract import register as _register
 _register(io.KeyOrderPlain)
 _register(io.KeyOrderLen)
-CONTRACTS = [c.ident for c in (tk.TrackerInit(), tk.TrackerHandle(), tk.TrackerFinalize(), tk.LengthScaleHandle(), co.ETCAppend(), pl.FromStorageBranches(),
+CONTRACTS = [c.ident for c in (tk.TrackerInit(), tk.TrackerHandle(), tk.TrackerFinalize(), tk.LengthScaleHandle(), tk.LengthScaleFinalize(), co.ETCAppend(), pl.FromStorageBranches(),
                                io.ETCToFile(), io.ETCFromFile(), io.EmWriteDataset(), io.EmFromDataset())]
 LEMMAS = [io.KeyOrderPlain.name, io.KeyOrderLen.name]
 
@@ -121,6 +121,26 @@ class TrackerVsOffline(Bounded):
                         exp.append(float(droplets.get_length_scale(f, method=method)))
                     except Exception:   # noqa: BLE001
                         exp.append(math.nan)
+                # the file written at the end holds exactly the records, not-a-number entries included
+                import json
+                import os
+                import tempfile
+                fd, jpath = tempfile.mkstemp(suffix=".json")
+                os.close(fd)
+                try:
+                    lt.filename = jpath
+                    lt.finalize()
+                    with open(jpath) as fp_:
+                        back_ = json.load(fp_)
+                    if not (np.array_equal(np.array(back_["times"], float), np.array(times, float)) and
+                            np.array_equal(np.array(back_["length_scales"], float), np.array([float(x) for x in lt.length_scales]), equal_nan=True)):
+                        viol.setdefault("ls-file", dict(signature="lengthscale-file", what="file written by LengthScaleTracker.finalize() does not hold the recorded data",
+                                                        inputs=dict(t=t, method=method)))
+                except Exception as e:   # noqa: BLE001
+                    viol.setdefault("ls-fin", dict(signature=f"lengthscale-finalize-raised:{type(e).__name__}",
+                                                   what=f"LengthScaleTracker.finalize raised {type(e).__name__}: {e}", inputs=dict(t=t, method=method)))
+                finally:
+                    os.remove(jpath)
                 got = [float(x) for x in lt.length_scales]
                 if list(lt.times) != list(times) or not np.array_equal(np.array(got), np.array(exp), equal_nan=True):
                     viol.setdefault(("ls", method), dict(signature=f"lengthscale-values:{method}",
